@@ -17,6 +17,11 @@ def run_all(pids=None):
     failing, aborted, n, undecided = [], [], 0, []
     for pid in pids:
         mod = importlib.import_module("rules.props.%s" % pid.lower())
+        # expression recovery memoises per body and breaks cycles where it happens to enter them: what a query returns can depend on the queries made before it.
+        # Every property starts from empty memos, as it does in its own `bin/check` process.
+        for b_ in prog.bodies:
+            b_._memo = {}
+            b_._restrict = None
         ctx = core.Ctx.__new__(core.Ctx)
         ctx.pid, ctx.tier, ctx.seed = pid, "quick", 0
         import time
